@@ -145,6 +145,16 @@ class PyList:
         return "PyList(%s)" % self.name
 
 
+class GenList:
+    """[elem(i) for i in range(...)]: a list known through its generic element"""
+
+    def __init__(self, elem, ivar, rng):
+        self.elem, self.ivar, self.rng = elem, ivar, rng
+
+    def __repr__(self):
+        return "GenList(%r for %r in [%r, %r))" % (self.elem, self.ivar, self.rng.start, self.rng.stop)
+
+
 class SetV:
     """a Python set of scalar values; duplicates are removed by (possibly decided) equality"""
 
@@ -289,7 +299,8 @@ class Interp:
     # ---- bookkeeping
     def event(self, kind, node, detail):
         where = "%s:%s" % (self.cur_mod.name if self.cur_mod else "?", getattr(node, "lineno", "?"))
-        self.events.append((kind, where, detail))
+        self.seq = getattr(self, "seq", 0) + 1
+        self.events.append((kind, where, detail, self.seq))
 
     def decide(self, desc):
         if self.dpos < len(self.decisions):
@@ -1164,6 +1175,8 @@ class Interp:
                         return v
                 return Unknown("dict key %r" % (key,))
             if isinstance(node.slice, ast.Slice):
+                if any(isinstance(x, GenList) for x in base.items):
+                    return self.slice_segments(base, node, env)
                 lo = self._const_int(node.slice.lower, env, 0)
                 hi = self._const_int(node.slice.upper, env, len(base.items))
                 st = self._const_int(node.slice.step, env, 1)
@@ -1200,6 +1213,22 @@ class Interp:
             return base
         raise AnalysisError("%s:%d: subscript of %r not modelled" % (self.cur_mod.name, node.lineno, base))
 
+    def slice_segments(self, base, node, env):
+        """list made of generated segments sliced at symbolic bounds: the slice must coincide with segment boundaries"""
+        lo = self.eval(node.slice.lower, env) if node.slice.lower is not None else ZERO
+        bounds = [ZERO]
+        for x in base.items:
+            bounds.append(bounds[-1] + (x.rng.count if isinstance(x, GenList) else ONE))
+        hi = self.eval(node.slice.upper, env) if node.slice.upper is not None else bounds[-1]
+        if node.slice.step is not None or not (isinstance(lo, Expr) and isinstance(hi, Expr)):
+            return Unknown("slice of a generated list")
+        a = [k for k, b in enumerate(bounds) if b.eq(lo)]
+        b = [k for k, bb in enumerate(bounds) if bb.eq(hi)]
+        if a and b and a[0] <= b[0]:
+            return Tup(base.items[a[0]: b[0]], base.kind)
+        self.event("misaligned-slice", node, "slice [%r:%r] of a list with segment boundaries %r" % (lo, hi, bounds))
+        return Unknown("slice [%r:%r] does not coincide with the boundaries of the generated segments" % (lo, hi))
+
     def _const_int(self, node, env, default):
         if node is None:
             return default
@@ -1220,14 +1249,38 @@ class Interp:
                 out = []
                 for x in it.items:
                     e2 = dict(env)
+                    if isinstance(x, GenList):
+                        self.assign(g.target, x.elem, e2)
+                        out.append(GenList(self.eval(node.elt, e2), x.ivar, x.rng))
+                        continue
                     self.assign(g.target, x, e2)
                     out.append(self.eval(node.elt, e2))
                 return Tup(out, "list")
+            if isinstance(it, RangeV):
+                self._loop_ids += 1
+                iv = alg._atom("sym", "j#%d" % self._loop_ids, (), pos=False, real=True, integer=True)
+                e2 = dict(env)
+                self.assign(g.target, it.start + alg.atom_expr(iv) * it.step, e2)
+                return Tup([GenList(self.eval(node.elt, e2), iv, it)], "list")
+            if isinstance(it, GenList):
+                e2 = dict(env)
+                self.assign(g.target, it.elem, e2)
+                return Tup([GenList(self.eval(node.elt, e2), it.ivar, it.rng)], "list")
         return Unknown("comprehension")
 
     ev_GeneratorExp = ev_ListComp
 
     def ev_DictComp(self, node, env):
+        if len(node.generators) == 1 and not node.generators[0].ifs:
+            g = node.generators[0]
+            it = self.eval(g.iter, env)
+            if isinstance(it, Tup) and it.kind != "dict" and not any(isinstance(x, GenList) for x in it.items):
+                out = []
+                for x in it.items:
+                    e2 = dict(env)
+                    self.assign(g.target, x, e2)
+                    out.append((self.eval(node.key, e2), self.eval(node.value, e2)))
+                return Tup(out, "dict")
         return Unknown("dict comprehension")
 
     def ev_Starred(self, node, env):
@@ -1320,7 +1373,8 @@ class Interp:
                 self.calls.append((f.name, args, kwargs, node))
                 return Unknown("call of opaque %s" % f.name)
             raise AnalysisError("%s:%d: call of %r not modelled" % (self.cur_mod.name, node.lineno, f))
-        self.calls.append((f.dotted, args, kwargs, node))
+        self.seq = getattr(self, "seq", 0) + 1
+        self.calls.append((f.dotted, args, kwargs, node, self.seq))
         stub = self.stubs.get(f.dotted)
         if stub is not None:
             return stub(self, args, kwargs, node)
